@@ -82,7 +82,7 @@ func newExec(p *Program, cs *ContractSet, fn *ssa.Function, ct *Contract) *Exec 
 		declSet: map[string]bool{}, inlined: map[string]bool{}, usedContracts: map[string]bool{},
 		maxPaths: 600, goalNames: map[string]int{}, callOrd: map[string]int{}, compIDs: map[string]int{}, compSorts: map[string]string{},
 		fnIDs: map[*ssa.Function]int{}, closures: map[string]*Closure{}, fieldRefs: map[int]fieldRefInfo{}, implPreds: map[string]*types.Interface{},
-		uncontracted: map[string]bool{}, usedAxioms: map[string]bool{}, reified: map[string]*Ptr{}}
+		uncontracted: map[string]bool{}, usedAxioms: map[string]bool{}, reified: map[string]*Ptr{}, unfolded: map[string]bool{}}
 	ex.u.extraDecls = p.spec.text
 	return ex
 }
